@@ -13,7 +13,9 @@ fn idx(frac: u16, len: usize) -> usize {
     ((frac as usize) * (len + 1)) >> 16
 }
 
-const IDA: &[u8] = &[0, b'A', b'b', b'7', 0xC3, 0xA9, 0xFF, b' ', 0xE2, 0x82, 0xAC];
+const IDA: &[u8] = &[
+    0, b'A', b'b', b'7', 0xC3, 0xA9, 0xFF, b' ', 0xE2, 0x82, 0xAC,
+];
 
 fn id_bytes() -> BoxedStrategy<Vec<u8>> {
     prop_oneof![
@@ -26,7 +28,10 @@ fn id_bytes() -> BoxedStrategy<Vec<u8>> {
 
 /// text bytes as found on the wire: from a small alphabet, mostly NUL terminated
 fn wire_text() -> BoxedStrategy<Vec<u8>> {
-    (vec(prop::sample::select(IDA), 0..6), prop::bool::weighted(0.8))
+    (
+        vec(prop::sample::select(IDA), 0..6),
+        prop::bool::weighted(0.8),
+    )
         .prop_map(|(mut t, term)| {
             if term {
                 t.push(0);
@@ -41,9 +46,9 @@ fn wire_text() -> BoxedStrategy<Vec<u8>> {
 struct WArg {
     kind_sel: u8,
     tyle: u8,
-    flags: u8,      // bit0 VARI, bit1 FIXP, bit2 TRAI, bit3 STRU
+    flags: u8, // bit0 VARI, bit1 FIXP, bit2 TRAI, bit3 STRU
     scod: u8,
-    upper: u32,     // bits 18..31
+    upper: u32, // bits 18..31
     name: Vec<u8>,
     unit: Vec<u8>,
     text: Vec<u8>,
@@ -53,7 +58,10 @@ struct WArg {
 }
 fn warg() -> BoxedStrategy<WArg> {
     (
-        (prop_oneof![19 => 0u8..6, 1 => 6u8..8], prop_oneof![9 => 1u8..=5, 1 => 0u8..16]),
+        (
+            prop_oneof![19 => 0u8..6, 1 => 6u8..8],
+            prop_oneof![9 => 1u8..=5, 1 => 0u8..16],
+        ),
         (
             prop::bool::weighted(0.3),
             prop::bool::weighted(0.2),
@@ -62,23 +70,36 @@ fn warg() -> BoxedStrategy<WArg> {
             prop_oneof![7 => Just(0u8), 3 => 0u8..8],
             prop_oneof![9 => Just(0u32), 1 => any::<u32>()],
         ),
-        (wire_text(), wire_text(), wire_text(), vec(any::<u8>(), 0..6)),
+        (
+            wire_text(),
+            wire_text(),
+            wire_text(),
+            vec(any::<u8>(), 0..6),
+        ),
         prop_oneof![19 => Just(None), 1 => any::<u16>().prop_map(Some)],
         vec(any::<u8>(), 28),
     )
-        .prop_map(|((kind_sel, tyle), (vari, fixp, trai, stru, scod, upper), (name, unit, text, data), len_override, filler)| WArg {
-            kind_sel,
-            tyle,
-            flags: vari as u8 | (fixp as u8) << 1 | (trai as u8) << 2 | (stru as u8) << 3,
-            scod,
-            upper,
-            name,
-            unit,
-            text,
-            data,
-            len_override,
-            filler,
-        })
+        .prop_map(
+            |(
+                (kind_sel, tyle),
+                (vari, fixp, trai, stru, scod, upper),
+                (name, unit, text, data),
+                len_override,
+                filler,
+            )| WArg {
+                kind_sel,
+                tyle,
+                flags: vari as u8 | (fixp as u8) << 1 | (trai as u8) << 2 | (stru as u8) << 3,
+                scod,
+                upper,
+                name,
+                unit,
+                text,
+                data,
+                len_override,
+                filler,
+            },
+        )
         .boxed()
 }
 fn render_arg(a: &WArg, be: bool, o: &mut Vec<u8>) {
@@ -98,7 +119,9 @@ fn render_arg(a: &WArg, be: bool, o: &mut Vec<u8>) {
     }
     w |= (a.scod as u32 & 7) << 15;
     w |= a.upper << 18;
-    let p16 = |o: &mut Vec<u8>, v: u16| o.extend_from_slice(&if be { v.to_be_bytes() } else { v.to_le_bytes() });
+    let p16 = |o: &mut Vec<u8>, v: u16| {
+        o.extend_from_slice(&if be { v.to_be_bytes() } else { v.to_le_bytes() })
+    };
     o.extend_from_slice(&if be { w.to_be_bytes() } else { w.to_le_bytes() });
     let vari = w & (1 << 11) != 0;
     match refcodec::decode_type(w).map(|t| t.kind) {
@@ -127,7 +150,11 @@ fn render_arg(a: &WArg, be: bool, o: &mut Vec<u8>) {
                 o.extend_from_slice(&a.unit);
             }
             let bytes = match k {
-                RKind::Sint(b) | RKind::Uint(b) | RKind::Float(b) | RKind::SintFx(b) | RKind::UintFx(b) => b as usize / 8,
+                RKind::Sint(b)
+                | RKind::Uint(b)
+                | RKind::Float(b)
+                | RKind::SintFx(b)
+                | RKind::UintFx(b) => b as usize / 8,
                 _ => 1,
             };
             if matches!(k, RKind::SintFx(_) | RKind::UintFx(_)) {
@@ -172,7 +199,13 @@ fn wmsg(with_storage: bool) -> BoxedStrategy<WMsg> {
     };
     (
         storage,
-        (any::<u8>(), prop::bool::weighted(0.7), any::<u8>(), id_bytes(), any::<[u32; 2]>()),
+        (
+            any::<u8>(),
+            prop::bool::weighted(0.7),
+            any::<u8>(),
+            id_bytes(),
+            any::<[u32; 2]>(),
+        ),
         (
             any::<u8>(),
             prop_oneof![6 => Just(Some(true)), 2 => Just(Some(false)), 2 => Just(None)],
@@ -180,7 +213,12 @@ fn wmsg(with_storage: bool) -> BoxedStrategy<WMsg> {
             id_bytes(),
             id_bytes(),
         ),
-        (vec(warg(), 0..5), prop::bool::weighted(0.85), prop_oneof![9 => Just(vec![]), 1 => vec(any::<u8>(), 0..4)], vec(any::<u8>(), 0..12)),
+        (
+            vec(warg(), 0..5),
+            prop::bool::weighted(0.85),
+            prop_oneof![9 => Just(vec![]), 1 => vec(any::<u8>(), 0..4)],
+            vec(any::<u8>(), 0..12),
+        ),
         (
             prop_oneof![17 => Just(0i32), 3 => -4i32..=4],
             prop_oneof![49 => Just(None), 1 => (0u16..20).prop_map(Some)],
@@ -189,40 +227,52 @@ fn wmsg(with_storage: bool) -> BoxedStrategy<WMsg> {
             prop_oneof![9 => Just(None), 1 => (any::<u16>(), 0u8..8).prop_map(Some)],
         ),
     )
-        .prop_map(|(storage, (htyp, ueh, mcnt, ecu, nums), (msin, vb, noar, apid, ctid), (args, noar_matches, trailing, nv), (len_delta, len_abs, suffix, truncate, flip))| {
-            let htyp = if ueh { htyp | UEH } else { htyp };
-            let msin = match vb {
-                Some(true) => msin | 1,
-                Some(false) => msin & !1,
-                None => msin,
-            };
-            let verbose = htyp & UEH != 0 && msin & 1 != 0;
-            let mut args = args;
-            if verbose && noar_matches {
-                // NOAR arguments follow (the common case); otherwise the count is off
-                while args.len() > noar as usize {
-                    args.pop();
-                }
-            }
-            let noar = if verbose && noar_matches { args.len() as u8 } else { noar };
-            WMsg {
+        .prop_map(
+            |(
                 storage,
-                htyp,
-                mcnt,
-                ecu,
-                nums,
-                msin,
-                noar,
-                ids: (apid, ctid),
-                args: if verbose { args } else { vec![] },
-                trailing: if verbose { trailing } else { nv },
-                len_delta,
-                len_abs,
-                suffix,
-                truncate,
-                flip,
-            }
-        })
+                (htyp, ueh, mcnt, ecu, nums),
+                (msin, vb, noar, apid, ctid),
+                (args, noar_matches, trailing, nv),
+                (len_delta, len_abs, suffix, truncate, flip),
+            )| {
+                let htyp = if ueh { htyp | UEH } else { htyp };
+                let msin = match vb {
+                    Some(true) => msin | 1,
+                    Some(false) => msin & !1,
+                    None => msin,
+                };
+                let verbose = htyp & UEH != 0 && msin & 1 != 0;
+                let mut args = args;
+                if verbose && noar_matches {
+                    // NOAR arguments follow (the common case); otherwise the count is off
+                    while args.len() > noar as usize {
+                        args.pop();
+                    }
+                }
+                let noar = if verbose && noar_matches {
+                    args.len() as u8
+                } else {
+                    noar
+                };
+                WMsg {
+                    storage,
+                    htyp,
+                    mcnt,
+                    ecu,
+                    nums,
+                    msin,
+                    noar,
+                    ids: (apid, ctid),
+                    args: if verbose { args } else { vec![] },
+                    trailing: if verbose { trailing } else { nv },
+                    len_delta,
+                    len_abs,
+                    suffix,
+                    truncate,
+                    flip,
+                }
+            },
+        )
         .boxed()
 }
 fn render_wmsg(w: &WMsg) -> Vec<u8> {
@@ -296,7 +346,12 @@ enum Mutation {
 fn mutation() -> BoxedStrategy<Mutation> {
     let junk = prop_oneof![
         vec(any::<u8>(), 1..8),
-        prop::sample::select(vec![b"D".to_vec(), b"DL".to_vec(), b"DLT".to_vec(), b"DLT\x01".to_vec()]),
+        prop::sample::select(vec![
+            b"D".to_vec(),
+            b"DL".to_vec(),
+            b"DLT".to_vec(),
+            b"DLT\x01".to_vec()
+        ]),
     ];
     prop_oneof![
         4 => (any::<u16>(), 0u8..8).prop_map(|(p, b)| Mutation::BitFlip(p, b)),
@@ -337,11 +392,18 @@ fn mutate(m: &RMsg, muts: &[Mutation]) -> Vec<u8> {
                 }
             }
             Mutation::AddInnerLen(which, d) => {
-                let prefixes: Vec<_> = map.iter().filter(|f| f.role == Role::LenPrefix && f.end <= b.len()).collect();
+                let prefixes: Vec<_> = map
+                    .iter()
+                    .filter(|f| f.role == Role::LenPrefix && f.end <= b.len())
+                    .collect();
                 if !prefixes.is_empty() {
                     let f = prefixes[idx(*which, prefixes.len() - 1)];
                     let be = m.big_endian();
-                    let cur = if be { u16::from_be_bytes([b[f.start], b[f.start + 1]]) } else { u16::from_le_bytes([b[f.start], b[f.start + 1]]) };
+                    let cur = if be {
+                        u16::from_be_bytes([b[f.start], b[f.start + 1]])
+                    } else {
+                        u16::from_le_bytes([b[f.start], b[f.start + 1]])
+                    };
                     let l = (cur as i64 + *d as i64).rem_euclid(65536) as u16;
                     let e = if be { l.to_be_bytes() } else { l.to_le_bytes() };
                     b[f.start..f.start + 2].copy_from_slice(&e);
@@ -386,7 +448,11 @@ fn mutate(m: &RMsg, muts: &[Mutation]) -> Vec<u8> {
 
 /// inputs of at least 64 KiB + 16
 fn large(with_storage: bool) -> BoxedStrategy<Vec<u8>> {
-    let st = if with_storage { g::StorageMode::Always } else { g::StorageMode::Never };
+    let st = if with_storage {
+        g::StorageMode::Always
+    } else {
+        g::StorageMode::Never
+    };
     prop_oneof![
         // one maximal message + tail
         2 => (g::message(g::MsgParams { storage: st, ..Default::default() }), any::<u64>(), 0usize..200, 0u8..6).prop_map(|(mut m, s, l, a)| {
@@ -447,56 +513,100 @@ fn large(with_storage: bool) -> BoxedStrategy<Vec<u8>> {
 /// inputs of more than a megabyte in ONE slice (a memory-mapped trace file): many large messages back to back, or —
 /// storage mode — more than a megabyte of pattern-free junk in front of a message
 pub fn huge(with_storage: bool) -> BoxedStrategy<Vec<u8>> {
-    let st = if with_storage { g::StorageMode::Always } else { g::StorageMode::Never };
-    let stretched = move || {
-        (g::message(g::MsgParams { storage: st, large: false, ..Default::default() }), any::<u64>(), 30_000usize..65_000).prop_map(|(mut m, s, want)| {
-            let hdr = m.headers_len();
-            let used = refcodec::payload_len(&m);
-            match &mut m.payload {
-                RPayload::NonVerbose(_, d) | RPayload::Control(_, d) => {
-                    let room = 65535 - hdr - 5;
-                    d.extend(expand_bytes(s, want.min(room).saturating_sub(d.len()), 1));
-                }
-                RPayload::Verbose(args) => {
-                    // a raw argument carries the bulk (NOAR stays <= 255: small messages have < 6 arguments)
-                    let room = (65535 - hdr).saturating_sub(used + 6);
-                    args.push(RArg { ty: RType { kind: RKind::Raw, vari: false, trai: false, scod: 0 }, name: None, unit: None, fixp: None, val: RVal::Raw(expand_bytes(s, want.min(room), 1)) });
-                }
-            }
-            if let (Some(e), RPayload::Verbose(args)) = (&mut m.ext, &m.payload) {
-                e.noar = args.len() as u8;
-            }
-            m.len = (hdr + refcodec::payload_len(&m)) as u16;
-            refcodec::encode(&m)
-        })
+    let st = if with_storage {
+        g::StorageMode::Always
+    } else {
+        g::StorageMode::Never
     };
-    let many = (vec(stretched(), 2..5), 1_100_000usize..2_600_000, vec(any::<u8>(), 0..20)).prop_map(|(ms, total, tail)| {
-        let mut b = Vec::with_capacity(total + 70_000);
-        let mut i = 0;
-        while b.len() < total {
-            b.extend_from_slice(&ms[i % ms.len()]);
-            i += 1;
-        }
-        b.extend(tail);
-        b
-    });
+    let stretched = move || {
+        (
+            g::message(g::MsgParams {
+                storage: st,
+                large: false,
+                ..Default::default()
+            }),
+            any::<u64>(),
+            30_000usize..65_000,
+        )
+            .prop_map(|(mut m, s, want)| {
+                let hdr = m.headers_len();
+                let used = refcodec::payload_len(&m);
+                match &mut m.payload {
+                    RPayload::NonVerbose(_, d) | RPayload::Control(_, d) => {
+                        let room = 65535 - hdr - 5;
+                        d.extend(expand_bytes(s, want.min(room).saturating_sub(d.len()), 1));
+                    }
+                    RPayload::Verbose(args) => {
+                        // a raw argument carries the bulk (NOAR stays <= 255: small messages have < 6 arguments)
+                        let room = (65535 - hdr).saturating_sub(used + 6);
+                        args.push(RArg {
+                            ty: RType {
+                                kind: RKind::Raw,
+                                vari: false,
+                                trai: false,
+                                scod: 0,
+                            },
+                            name: None,
+                            unit: None,
+                            fixp: None,
+                            val: RVal::Raw(expand_bytes(s, want.min(room), 1)),
+                        });
+                    }
+                }
+                if let (Some(e), RPayload::Verbose(args)) = (&mut m.ext, &m.payload) {
+                    e.noar = args.len() as u8;
+                }
+                m.len = (hdr + refcodec::payload_len(&m)) as u16;
+                refcodec::encode(&m)
+            })
+    };
+    let many = (
+        vec(stretched(), 2..5),
+        1_100_000usize..2_600_000,
+        vec(any::<u8>(), 0..20),
+    )
+        .prop_map(|(ms, total, tail)| {
+            let mut b = Vec::with_capacity(total + 70_000);
+            let mut i = 0;
+            while b.len() < total {
+                b.extend_from_slice(&ms[i % ms.len()]);
+                i += 1;
+            }
+            b.extend(tail);
+            b
+        });
     if !with_storage {
         return many.boxed();
     }
-    let junk_first = (any::<u64>(), 1_048_000usize..2_600_000, 1u8..6, g::message(g::MsgParams { storage: g::StorageMode::Always, large: false, ..Default::default() }), g::suffix()).prop_map(|(s, l, a, m, sfx)| {
-        // (junk kept free of the pattern)
-        let mut b = crate::props::c06::scrub(expand_bytes(s, l, a));
-        b.extend(refcodec::encode(&m));
-        b.extend(sfx);
-        b
-    });
+    let junk_first = (
+        any::<u64>(),
+        1_048_000usize..2_600_000,
+        1u8..6,
+        g::message(g::MsgParams {
+            storage: g::StorageMode::Always,
+            large: false,
+            ..Default::default()
+        }),
+        g::suffix(),
+    )
+        .prop_map(|(s, l, a, m, sfx)| {
+            // (junk kept free of the pattern)
+            let mut b = crate::props::c06::scrub(expand_bytes(s, l, a));
+            b.extend(refcodec::encode(&m));
+            b.extend(sfx);
+            b
+        });
     prop_oneof![2 => many, 1 => junk_first].boxed()
 }
 
 /// Byte strings for the decode-side properties, for a given storage mode of the *generator*
 /// (the checks parse every buffer in both modes anyway).
 pub fn hostile(with_storage: bool) -> BoxedStrategy<Vec<u8>> {
-    let st = if with_storage { g::StorageMode::Always } else { g::StorageMode::Never };
+    let st = if with_storage {
+        g::StorageMode::Always
+    } else {
+        g::StorageMode::Never
+    };
     prop_oneof![
         300 => (g::message(g::MsgParams { storage: st, ..Default::default() }), g::suffix()).prop_map(|(m, s)| {
             let mut b = refcodec::encode(&m);
@@ -522,7 +632,11 @@ pub fn hostile(with_storage: bool) -> BoxedStrategy<Vec<u8>> {
 
 /// hostile inputs without the expensive > 64 KiB class
 pub fn hostile_small(with_storage: bool) -> BoxedStrategy<Vec<u8>> {
-    let st = if with_storage { g::StorageMode::Always } else { g::StorageMode::Never };
+    let st = if with_storage {
+        g::StorageMode::Always
+    } else {
+        g::StorageMode::Never
+    };
     prop_oneof![
         25 => (g::message(g::MsgParams { storage: st, large: false, ..Default::default() }), g::suffix()).prop_map(|(m, s)| {
             let mut b = refcodec::encode(&m);
